@@ -472,6 +472,34 @@ pub fn c01(o: &Opts, t: &mut Tracer) -> Value {
             let rs: Vec<usize> = (0..3).map(|_| [0usize, 1, 2, 3, 100, 1 << 16][rng.gen_range(0..6)]).chain(std::iter::once(512)).collect();
             scheds.push(Sched { arrivals: arr, send_sizes: ss, read_sizes: rs, queries: 1000 + k as u64, name: format!("random-{}", k) });
         }
+        // send buffers aligned with the line structure of the request head: everything up to the last header
+        // line, then room for that line plus 0 / 1 / 2 bytes (the final empty line does or does not fit)
+        {
+            let mut twin = rq_final.clone();
+            if framing == "cl" {
+                twin.framing = format!("cl:{}", cl_text);
+            }
+            if let Some(Ok(f)) = guarded(|| Flow::new(twin.request())) {
+                let mut f = f.proceed();
+                let mut buf = vec![0u8; 1 << 16];
+                if let Some(Ok(n)) = guarded(|| f.write(&mut buf)) {
+                    let lens = crate::drv_req::lex_head(&buf[..n]).lens;
+                    if lens.len() >= 3 {
+                        let last = lens[lens.len() - 2];
+                        let before: usize = lens[..lens.len() - 2].iter().sum();
+                        let maxline = lens.iter().copied().max().unwrap_or(8);
+                        for d in 0..3usize {
+                            scheds.push(Sched { arrivals: vec![], send_sizes: vec![before, last + d, 1 << 16], read_sizes: big.clone(), queries: 0, name: format!("head-aligned+{}", d) });
+                            // a constant buffer must at least hold the longest line plus the final empty line
+                            scheds.push(Sched { arrivals: vec![], send_sizes: vec![maxline + 2 + d], read_sizes: big.clone(), queries: d as u64, name: format!("const-send-{}", maxline + 2 + d) });
+                        }
+                        for k in [maxline, maxline + 1, maxline + 2, maxline + 3, n - 2, n - 1] {
+                            scheds.push(Sched { arrivals: vec![], send_sizes: vec![k, 1 << 16], read_sizes: big.clone(), queries: 0, name: format!("send-{}-then-big", k) });
+                        }
+                    }
+                }
+            }
+        }
         for s in &scheds {
             runs += 1;
             t.ev(json!({"ev":"run","sched":s.name}));
